@@ -45,9 +45,19 @@ TRUSTED = [
     "Arc/Weak reference counting of Owner (one strong holder per owner: the harness, the effect's task, the memo, or the "
     "ImmediateEffect's inner state, i.e. its handle); a RenderEffect has no arena entry and lives as long as its handle; "
     "the effect's notification path (ArcTrigger -> EffectInner::mark_dirty -> channel flag -> waker) as three flags; "
+    "since /repo 70e5989 an owner removes all its arena nodes first and drops the removed values after releasing the arena "
+    "lock, while the model drops a memo's owner right when the memo's entry is removed: not distinguishable here, the memo's "
+    "owner being a child of the same scope and therefore already emptied (children are cleaned first)",
     "memo dirtiness as one flag; Effect::stop as the same 'Sender gone' flag as a dropped RenderEffect handle",
 ]
 ASSUMPTIONS = [
+    "'effects created under it never run again' is about the effects a scope owns: Effect (arena entry registered with the scope), "
+    "ImmediateEffect::new_scoped, and whatever the released values keep alive. A RenderEffect and an ImmediateEffect belong to "
+    "their handle by documented design ('canceled when the RenderEffect itself is dropped, rather than … when the Owner cleans "
+    "up', 'ImmediateEffects stop running when dropped'): the harness keeps those handles outside the scope, so an immediate / "
+    "render effect created in an earlier run of its parent still runs on notification until its handle is dropped (op 24 / 27) "
+    "- model and oracle say so on purpose (a `disposed` flag on owners that would cancel them was tried in /repo and withdrawn: "
+    "it broke Suspense, keyed lists and hydration, C05/C07/C11/C20)",
     "the model's two ghost flags stay false on every generated case (checked: the model would print -99 / -98 and "
     "mismatch): err = a fuel bound was hit (proved impossible for the release cascade; for the scheduler of RunAll it "
     "is a hypothesis of the theorems), unowned = a value was allocated with no live current owner (hypothesis of no_leak)",
